@@ -102,7 +102,6 @@ theorem digraphSelf_sortby_pred (nv : Nat) (B : BipG) (succ : Bool) :
 /-- `sorted((a, b))` -/
 theorem sorted_pair (a b : Int) : Py.sorted [a, b] = if b < a then [b, a] else [a, b] := by
   simp only [Py.sorted, List.foldl_cons, List.foldl_nil, Py.insertSorted]
-  split <;> rfl
 
 theorem sorted_pair_nat (a b : Nat) : Py.sorted [(a : Int), (b : Int)] = [((min a b : Nat) : Int), ((max a b : Nat) : Int)] := by
   rw [sorted_pair]
